@@ -14,7 +14,7 @@ HBIN = os.path.join(HARNESS, "target", "debug", "fvharness")
 HARNESS_OFF = os.path.join(VERIF, "harness-off")
 HBIN_OFF = os.path.join(HARNESS_OFF, "target", "debug", "fvharness-off")
 
-ALL_FIXES = ["FixRecv", "FixFifo", "FixCancelDefault", "FixEmptyToken", "FixStackFull", "FixForceStart", "FixReentrant", "FixInSpan", "FixExitOrder"]
+ALL_FIXES = ["FixRecv", "FixFifo", "FixCancelDefault", "FixEmptyToken", "FixStackFull", "FixForceStart", "FixReentrant", "FixInSpan", "FixExitOrder", "FixWithLine"]
 
 
 class ToolError(Exception):
